@@ -11,7 +11,7 @@ EXPLANATION = ("The ping branch of WebSocket.recv_data_frame and WebSocket.pong 
                "between and inside fragmented messages and mixed with symbolic pongs; the bytes written are decoded "
                "with the reference decoder and compared term by term, and the transport event log is checked for "
                "'pong written before the next read'.")
-ASSUMPTIONS = ["transport accepts every byte offered (short writes are C12)"]
+ASSUMPTIONS = ["transport accepts every byte offered except in the G-one short-write scenarios (all short-write patterns are C12)"]
 
 
 def _excs():
@@ -20,7 +20,7 @@ def _excs():
     return WebSocketProtocolException, WebSocketPayloadException, WebSocketConnectionClosedException
 
 
-def g_one(n, control_frame, logging_on=False):
+def g_one(n, control_frame, logging_on=False, via=None, short=False):
     """single ping with an n-byte symbolic payload followed by a text message"""
     quiet_logging()
     if logging_on:
@@ -29,7 +29,7 @@ def g_one(n, control_frame, logging_on=False):
         import websocket
         websocket.enableTrace(True, handler=logging.StreamHandler(io.StringIO()), level="DEBUG")
     try:
-        _g_one(n, control_frame)
+        _g_one(n, control_frame, via, short)
     finally:
         if logging_on:
             import websocket
@@ -37,12 +37,15 @@ def g_one(n, control_frame, logging_on=False):
             quiet_logging()
 
 
-def _g_one(n, control_frame):
+def _g_one(n, control_frame, via=None, short=False):
     Proto, Payload, Closed = _excs()
     p = sx.sym_bytes("p", n)
     key = sx.sym_bytes("k", 4)
-    sock = FakeSock([server_frame(1, 9, p) + server_frame(1, 1, b"x"), "eof"])
-    ws = new_ws(sock, get_mask_key=KeySource([key]))
+    accept = None
+    if short:  # the transport takes the pong in two pieces (symbolic split point)
+        accept = [sx.choice("first", 6 + n - 1) + 1]
+    sock = FakeSock([server_frame(1, 9, p) + server_frame(1, 1, b"x"), "eof"], accept=accept)
+    ws = new_ws(sock, via=via, get_mask_key=KeySource([key]))
     try:
         op, data = ws.recv_data(control_frame)
     except (sx.Control, sx.ConcreteFailure, sx.ReplayMismatch):
@@ -161,6 +164,8 @@ def obligations(tier):
     thorough = tier == "thorough"
     one = [dict(n=n, control_frame=cf) for n in range(0, 126) for cf in (False, True)]
     one += [dict(n=n, control_frame=cf, logging_on=True) for n in (0, 1, 2, 4) for cf in (False, True)]  # trace/debug logging on
+    # the pong written in two pieces (symbolic split), plain and through Dispatcher / SSLDispatcher (the WebSocketApp write path)
+    one += [dict(n=n, control_frame=False, via=v, short=True) for n in (0, 3, 125) for v in (None, "dispatcher", "ssl-dispatcher")]
     shapes = []
     base = [["P", "T"], ["T", "P", "T"], ["P", "P", "T"], ["O", "P", "T"], ["F0", "P", "F1"], ["F0", "P", "FC", "P", "F1"],
             ["P", "F0", "O", "P", "F1", "P"], ["F0", "O", "F1"], ["T", "O", "T"], ["P", "P", "P"], ["F0", "P", "P", "F1", "T"]]
@@ -185,7 +190,7 @@ def obligations(tier):
         for cf in (False, True):
             shapes.append(dict(shape=sh, control_frame=cf))
     return [
-        Obligation("G-one", g_one, one, bounds="one ping of every length 0..125, payload and mask key symbolic; control-frame reporting off/on",
+        Obligation("G-one", g_one, one, bounds="one ping of every length 0..125, payload and mask key symbolic; control-frame reporting off/on; pong accepted by the transport in two pieces (plain / Dispatcher / SSLDispatcher) at lengths 0, 3, 125",
                    must_cover=["one"], kernel=["WebSocket.recv_data_frame (ping branch)", "WebSocket.pong", "send", "send_frame", "ABNF.format"]),
         Obligation("G-stream", g_stream, shapes,
                    bounds="%d stream shapes with up to 3 pings before/between/inside fragmented messages, mixed with pongs and data; every "
